@@ -41,7 +41,7 @@ func TestVerifC16Blacklist(t *testing.T) {
 	}
 	vRun(t, "C16.blacklist", func(tier string) int {
 		if tier == "thorough" {
-			return len(combos) * 240
+			return len(combos) * 1000
 		}
 		return len(combos) * 16
 	}, func(c *vCase) {
